@@ -148,6 +148,8 @@ class _H:
         self.redelivery_due = {}  # ns -> list[mid]
         self.n_timeouts_granted = 0
         self.rx_index = 0
+        self.requeued_while_pending = set()  # mids rejected with requeue while already waiting for redelivery
+        self.last_flag = None  # most recent terminal action on a message that was waiting for its redelivery
 
 
 class _Consumer(Entity):
@@ -166,10 +168,9 @@ class _Consumer(Entity):
         payload = event.context.get("payload")
         pid = payload.context.get("pid") if payload is not None else None
         attempt = event.context.get("delivery_count")
-        if pid is not None:
-            h.pid_of.setdefault(mid, pid)
-            h.mid_of.setdefault(pid, mid)
         live = q.get_message(mid)
+        if pid is not None:
+            _learn(ctx, pid, mid)
         rec = {
             "t": now,
             "c": self.name,
@@ -230,6 +231,18 @@ class _Consumer(Entity):
         return out
 
 
+def _learn(ctx, pid, mid):
+    """The harness learns a message id (publish returned, or first delivery seen)."""
+    h = ctx["h"]
+    if mid in h.pid_of:
+        return
+    h.pid_of[mid] = pid
+    h.mid_of.setdefault(pid, mid)
+    live = ctx["q"].get_message(mid)
+    # dispatches that happened while the id was unknown are in the unattributed part of the dispatch log
+    ctx["seen_count"][mid] = live.delivery_count if live is not None else 0
+
+
 def _note_op(h, now, kind):
     h.op_instants.setdefault(now, []).append(kind)
 
@@ -248,6 +261,7 @@ def _ack(ctx, mid, who):
     if live is not None:
         if live.state == MessageState.PENDING:
             h.flags.add("ack-while-pending-redelivery")
+            h.last_flag = "ack-while-pending-redelivery"
         h.acks.setdefault(mid, now)
         h.last_action[mid] = "ack"
     q.acknowledge(mid)
@@ -261,6 +275,9 @@ def _reject(ctx, mid, requeue, who):
     if live is not None:
         if live.state == MessageState.PENDING:
             h.flags.add("reject-while-pending-redelivery")
+            h.last_flag = "reject-while-pending-redelivery"
+            if requeue:
+                h.requeued_while_pending.add(mid)
         if not requeue:
             h.drops.setdefault(mid, now)
         h.last_action[mid] = "reject-requeue" if requeue else "reject-no-requeue"
@@ -339,8 +356,7 @@ class _Driver(Entity):
             return None
         if full:
             ctx["res"].add("capacity-admission", "MessageQueue", "admitted-while-full", f"pid {pid}")
-        h.mid_of.setdefault(pid, mid)
-        h.pid_of.setdefault(mid, pid)
+        _learn(ctx, pid, mid)
         if ctx["poll_on_publish"]:
             _note_op(h, self.now.nanoseconds, "poll")
             return [Event(time=self.now, event_type="poll", target=q)]
@@ -387,6 +403,7 @@ def run_mq(case: dict) -> Result:
         "reactions": reactions,
         "poll_on_publish": bool(case.get("poll_on_publish")),
         "poll_after_reaction": bool(case.get("poll_after_reaction")),
+        "seen_count": {},
     }
     consumers = [_Consumer(f"c{i}", ctx) for i in range(case["n_consumers"])]
     ctx["consumers"] = consumers
@@ -441,7 +458,9 @@ def run_mq(case: dict) -> Result:
         res.add(oracle, "MessageQueue", shape, detail, witness)
 
     def cause():
-        return "+".join(sorted(h.flags)) or "no-terminal-action-on-a-requeued-message"
+        # structural precondition: the latest ack/reject of a message whose visibility timeout had already
+        # put it back into the pending queue (None = no such action happened before the observation)
+        return h.last_flag or "no-terminal-action-on-a-requeued-message"
 
     def end_of_instant(t):
         """State after every event of instant t has run."""
@@ -504,26 +523,29 @@ def run_mq(case: dict) -> Result:
                     rel.append("pending_count" + (">" if pc > n_pending else "<") + "pending-messages")
                 if fc != n_inflight:
                     rel.append("in_flight_count" + (">" if fc > n_inflight else "<") + "in-flight-messages")
-                stranded = sorted(h.pid_of[m] for m in pending_now)
-                report(
-                    "queue-counters",
-                    ",".join(rel) + "/" + cause(),
-                    f"t={t}ns pending_count={pc} but {n_pending} live messages are pending; in_flight_count={fc} but "
-                    f"{n_inflight} live messages are in flight (pending pids {stranded})",
-                    {"t_ns": t, "pending_count": pc, "in_flight_count": fc, "pending": n_pending, "in_flight": n_inflight},
-                )
+                if "counters" not in mon:
+                    # reported at the end, together with what it led to
+                    mon["counters"] = {
+                        "shape": ",".join(rel) + "/" + cause(),
+                        "detail": f"t={t}ns pending_count={pc} but {n_pending} live messages are pending; in_flight_count={fc} "
+                        f"but {n_inflight} live messages are in flight",
+                        "witness": {"t_ns": t, "pending_count": pc, "in_flight_count": fc, "pending": n_pending, "in_flight": n_inflight},
+                    }
                 mon["root"] = True
         dispatch = q.stats.messages_delivered + q.stats.messages_redelivered
         kinds = h.op_instants.get(t, [])
         # a poll with a message pending before and after, consumers present, must dispatch something
-        if "poll" in kinds and not mon["root"] and t not in h.sub_instants:
+        if "poll" in kinds and t not in h.sub_instants:
             still = mon["prev_pending"] & pending_now
             if still and q.consumer_count >= 1 and mon["consumers_prev"] >= 1 and dispatch == mon["prev_dispatch"]:
-                report(
-                    "poll-not-dispatched",
-                    cause(),
-                    f"poll at t={t}ns with pids {sorted(h.pid_of[m] for m in still)} pending and {q.consumer_count} consumers dispatched nothing",
-                )
+                if mon["root"]:
+                    mon["idle_polls"] = mon.get("idle_polls", 0) + 1
+                else:
+                    report(
+                        "poll-not-dispatched",
+                        cause(),
+                        f"poll at t={t}ns with pids {sorted(h.pid_of[m] for m in still)} pending and {q.consumer_count} consumers dispatched nothing",
+                    )
             res.count("polls_checked")
         # a requested redelivery must be dispatched when due
         for mid in h.redelivery_due.get(t, []):
@@ -553,6 +575,35 @@ def run_mq(case: dict) -> Result:
 
     sim.control.on_time_advance(on_advance)
 
+    # dispatch log: every increment of the queue's own delivered/redelivered counters, with the instant
+    # and (when the id is already known to the harness) the message it belongs to
+    disp = {"n": 0, "log": []}
+    seen = ctx["seen_count"]
+
+    def after_event(_event):
+        st = q.stats
+        d = st.messages_delivered + st.messages_redelivered
+        if d == disp["n"]:
+            return
+        delta = d - disp["n"]
+        disp["n"] = d
+        now = drv.now.nanoseconds
+        for mid in h.pid_of:
+            live = q.get_message(mid)
+            if live is None:
+                continue
+            k = live.delivery_count - seen.get(mid, 0)
+            if k > 0:
+                seen[mid] = live.delivery_count
+                k = min(k, delta)
+                delta -= k
+                disp["log"].extend([mid, now, False] for _ in range(k))
+                if delta == 0:
+                    break
+        disp["log"].extend([None, now, False] for _ in range(delta))
+
+    sim.control.on_event(after_event)
+
     with EngineProbe(log_deliveries=False, instant_cap=20000, total_cap=400000) as p:
         status = p.run(sim)
     if status != "completed":
@@ -565,11 +616,23 @@ def run_mq(case: dict) -> Result:
     init_names = {consumers[i].name for i in initial if i < len(consumers)}
     first_order = []
     by_mid = {}
+    attributed = {}
+    unattributed = {}
+    for ent in disp["log"]:
+        (attributed if ent[0] is not None else unattributed).setdefault((ent[0], ent[1]), []).append(ent)
+    unmatched_receipts = []
     for r in h.receipts:
         res.count("deliveries_received")
         mid, pid, t = r["mid"], r["pid"], r["t"]
+        first = mid not in by_mid
         by_mid.setdefault(mid, []).append(r)
         x = t - L_ns  # dispatch instant
+        res.count("delivery_instants_checked")
+        pool = [e for e in attributed.get((mid, x), []) if not e[2]] or [e for e in unattributed.get((None, x), []) if not e[2]]
+        if pool:
+            pool[0][2] = True
+        else:
+            unmatched_receipts.append(r)
         st = _subscribed_at(h, r["c"], r["c"] in init_names, x)
         if st is False:
             report(
@@ -591,21 +654,16 @@ def run_mq(case: dict) -> Result:
                 "dispatched-after-dead-letter",
                 f"pid={pid} dead-lettered by {mon['dead_at'][mid]}ns, attempt {r['attempt']} dispatched at {x}ns",
             )
-        if r["attempt"] is not None and r["attempt"] > maxred + 1:
+        if len(by_mid[mid]) > maxred + 1:
             report(
                 "exceeds-redelivery-limit",
-                "attempt>1+max_redeliveries",
-                f"pid={pid} attempt {r['attempt']} with max_redeliveries={maxred}",
+                "deliveries>1+max_redeliveries/"
+                + ("message-requeued-by-reject-while-pending-redelivery" if mid in h.requeued_while_pending else "message-never-requeued-twice"),
+                f"pid={pid} delivered {len(by_mid[mid])} times with max_redeliveries={maxred}",
             )
-        if r["live_count"] == r["attempt"] and r["live_last"] is not None:
-            res.count("delivery_instants_checked")
-            if t - r["live_last"] != L_ns:
-                report(
-                    "delivery-instant",
-                    "latency>0" if L_ns else "latency=0",
-                    f"pid={pid} attempt {r['attempt']} dispatched {r['live_last']}ns received {t}ns, latency {L_ns}ns",
-                )
-        if r["attempt"] == 1 and pid in h.pub_seq:
+        if r["attempt"] != len(by_mid[mid]):
+            res.count("attempt_label_differs_from_arrival_rank")
+        if first and pid in h.pub_seq:
             first_order.append((h.pub_seq[pid], pid, t))
     for a, b in zip(first_order, first_order[1:]):
         res.count("first_delivery_pairs_checked")
@@ -617,46 +675,41 @@ def run_mq(case: dict) -> Result:
             )
             break
 
-    # ---- every dispatch is received
-    missing_total = 0
-    examples = []
-    for mid, pid in h.pid_of.items():
-        k = mon["max_count"].get(mid, 0)
-        got = sorted(r["attempt"] for r in by_mid.get(mid, []))
-        if len(set(got)) != len(got):
-            report("delivery-duplicated", "same-attempt-received-twice", f"pid={pid} attempts received {got}")
-        miss = [a for a in range(1, k + 1) if a not in got]
-        if miss:
-            missing_total += len(miss)
-            if len(examples) < 3:
-                examples.append({"pid": pid, "dispatched": k, "received": got})
-    total_dispatch = q.stats.messages_delivered + q.stats.messages_redelivered
+    # ---- every dispatch is received exactly delivery_latency later, and nothing else is received
+    total_dispatch = disp["n"]
     res.count("dispatches_checked", total_dispatch)
-    if total_dispatch != len(h.receipts) and not missing_total:
-        missing_total = total_dispatch - len(h.receipts)
+    lost = [e for e in disp["log"] if not e[2] and e[1] + L_ns <= t_end]
     discarded = [tt for tt in p.time_travel if tt.get("event_type") == "message_delivery"]
-    if missing_total > 0:
-        if L_ns > 0 and len(discarded) >= missing_total:
+    missing_total = len(lost)
+    if lost:
+        if L_ns > 0 and len(discarded) >= len(lost):
             shape = "latency>0/delivery-event-stamped-before-latency-discarded-by-engine"
         elif L_ns > 0:
             shape = "latency>0/not-discarded-by-engine"
         else:
             shape = "latency=0"
+        examples = [{"pid": h.pid_of.get(e[0]), "dispatched_ns": e[1]} for e in lost[:4]]
         report(
             "delivery-never-received",
             shape,
-            f"{missing_total} of {total_dispatch} dispatched deliveries never reached a consumer "
+            f"{len(lost)} of {total_dispatch} dispatched deliveries never reached a consumer "
             f"(engine discarded {len(discarded)} message_delivery events as time travel); e.g. {examples}",
             {"examples": examples, "time_travel": discarded[:2]},
         )
-    elif total_dispatch < len(h.receipts):
-        report("delivery-duplicated", "more-receipts-than-dispatches", f"{len(h.receipts)} receipts, {total_dispatch} dispatches")
+    if unmatched_receipts:
+        r = unmatched_receipts[0]
+        report(
+            "delivery-instant",
+            "latency>0" if L_ns else "latency=0",
+            f"{len(unmatched_receipts)} deliveries received without a dispatch exactly {L_ns}ns earlier, e.g. pid={r['pid']} "
+            f"attempt {r['attempt']} received by {r['c']} at {r['t']}ns; dispatches of it: "
+            f"{[e[1] for e in disp['log'] if e[0] == r['mid']]}",
+        )
 
     # ---- after the drain every message is acknowledged or dead-lettered
-    lost_mids = {e["pid"] for e in examples} if missing_total else set()
-    if not mon["root"] and not missing_total:
+    stranded = []
+    if not missing_total:
         dead_ids = {m.id for m in dlq.messages}
-        stranded = []
         for pid in h.pub_seq:
             if pid in h.refused:
                 continue
@@ -665,13 +718,18 @@ def run_mq(case: dict) -> Result:
             if mid is None or (mid not in h.acks and mid not in dead_ids):
                 live = q.get_message(mid) if mid else None
                 stranded.append((pid, _state_name(live)))
-        if stranded:
+        if stranded and not mon["root"]:
             report(
                 "stranded-after-drain",
                 "state:" + "+".join(sorted({s for _, s in stranded})) + "/" + cause(),
                 f"after {2 * n_polls} polls, timeouts and an acknowledging consumer, pids {stranded[:6]} are neither acknowledged nor dead-lettered",
             )
-    del lost_mids
+    if "counters" in mon:
+        c = mon["counters"]
+        extra = f"; afterwards {mon.get('idle_polls', 0)} polls with a message pending and a consumer subscribed dispatched nothing"
+        if stranded:
+            extra += f" and after the drain pids {stranded[:6]} are neither acknowledged nor dead-lettered"
+        report("queue-counters", c["shape"], c["detail"] + extra, c["witness"])
 
     # ---- evidence
     res.count("events_monitored", p.n_deliveries)
